@@ -138,3 +138,68 @@ DRIVERS = [
            rule='AND/OR over all 1..3-argument combinations of 11 atoms (logical and numeric literals, references, an empty cell, ranges mixing booleans, numbers and blanks) and 400 4..5-argument ones; an error at each of 3 positions; NOT over 8 arguments and errors; IF with an error condition',
            bound='argument counts 1..5'),
 ]
+
+
+# ---- seeded random nestings of IF / AND / OR / NOT --------------------------------------------------------------------------------------------
+ATOMS = [('TRUE', True), ('FALSE', False), ('1', True), ('0', False), ('K1', True), ('K2', False), ('K3', True), ('K4', False),
+         ('K3>2', True), ('K3<2', False), ('K1=K1', True), ('L1>L2', False), ('2.5', True), ('0.0', False)]
+
+
+def _rand_cond(rng, depth):
+    """(text, truth) of a spy-free condition"""
+    if depth == 0 or rng.random() < 0.35:
+        return rng.choice(ATOMS)
+    k = rng.choice(['AND', 'OR', 'NOT', 'IFC'])
+    if k == 'NOT':
+        t, v = _rand_cond(rng, depth - 1)
+        return f'NOT({t})', (not v)
+    if k == 'IFC':
+        c, cv = _rand_cond(rng, depth - 1)
+        a, av = _rand_cond(rng, depth - 1)
+        b, bv = _rand_cond(rng, depth - 1)
+        return f'IF({c},{a},{b})', (av if cv else bv)
+    parts = [_rand_cond(rng, depth - 1) for _ in range(rng.randrange(1, 4))]
+    vals = [v for _, v in parts]
+    return f'{k}({",".join(t for t, _ in parts)})', (all(vals) if k == 'AND' else any(vals))
+
+
+def _rand_if(rng, depth, counter):
+    """(text, value, log) of a value expression whose leaves are spied"""
+    if depth == 0 or rng.random() < 0.3:
+        counter[0] += 1
+        tag = counter[0]
+        v = rng.choice([10, 20, 0, -1.5, 7])
+        return f'SPY({tag},{v!r})', v, [tag]
+    c, cv = _rand_cond(rng, 2)
+    a, av, al = _rand_if(rng, depth - 1, counter)
+    b, bv, bl = _rand_if(rng, depth - 1, counter)
+    return f'IF({c},{a},{b})', (av if cv else bv), (al if cv else bl)
+
+
+def cases_random(tier, seed):
+    import random
+    rng = random.Random(seed + 10)
+    n = 60 if tier == 'quick' else 5000
+    for i in range(n):
+        counter = [0]
+        t, v, log = _rand_if(rng, rng.randrange(1, 5), counter)
+        if len(t) < 900:
+            yield dict(kind='random', formula='=' + t, value=v, log=log)
+
+
+def oracle_random(c):
+    from drivers.common import observe
+    try:
+        ev = _evaluator({'Z50': c['formula']})
+        obs = observe(ev.evaluate('Sheet1!Z50'))
+        log = list(LOG)
+    except Exception as ex:     # noqa
+        return False, 'a value', f'raise {type(ex).__name__}: {str(ex)[:200]}'
+    exp = ('num', c['value'])
+    ok = (obs == exp or (obs[0] == 'num' and abs(obs[1] - c['value']) < 1e-12)) and log == c['log']
+    return ok, (c['formula'], exp, f'evaluated leaves {c["log"]}'), (obs, log)
+
+
+DRIVERS.append(Driver('C10/B5.random', cases_random, oracle_random, nchunks=8,
+                      rule='seeded random value expressions: IF nested up to depth 4 whose conditions are random spy-free nestings of AND / OR / NOT / IF over 14 atoms (logical and numeric literals, references, comparisons) and whose leaves are spied: the value and the exact sequence of evaluated leaves (only the selected branch at every level) against a reference lazy evaluator',
+                      bound='60 (quick) / 5000 (thorough) expressions, depth <= 4'))
